@@ -14,6 +14,7 @@ is searched for by the `-race` stress of the thorough tier.
 -/
 import Restful.Model.Conc
 import Restful.Gen.Facts
+import Restful.Lemmas.Lockset
 namespace Restful
 namespace Props
 open Gen Conc
@@ -32,6 +33,10 @@ theorem C12_fixpoint : c12.fixpoint = true := by decide +kernel
 theorem C12_discipline : c12.report = { orderEdges := [(0, 1)] } := by decide +kernel
 
 theorem C12_lock_order_acyclic : acyclic c12.report.orderEdges = true := by decide +kernel
+
+/-! The general theorems about the interleaving semantics (Lemmas/Lockset.lean) are audited with this property: -/
+-- also: Restful.Lockset.lockset_sound
+-- also: Restful.Lockset.no_deadlock
 
 end Props
 end Restful
